@@ -180,6 +180,30 @@ func suiteRunner(o *Out, thorough bool, seed int64) {
 			emit(append(ops, "R"+hx([]byte("[$a, $c, x]"))))
 		})
 	}
+	// the same number in another notation (2.5 / 2.50, 1000 / 1e3 / 1000.0), the same text, the same boolean written
+	// again - by a formula and by the host: an entry holds what was written LAST, digit for digit
+	{
+		nf := []string{"$p = 2.5", "$p = 2.50", "$p = 1e3", "$p = 1000", "$p = 1000.0", "$p = 25e-1", "$p = '2.5'", "$p = true", "$p = 1 == 1", "$p = null", "$p = k", "k", "$p"}
+		obsf := []string{"toString($p)", "[$p, k]", "'' + $p * 2", "$p === 2.5", "toString(k) + '|' + toString($p)"}
+		sets := []string{"V" + hx([]byte("$p")) + "=D+:25:-1", "V" + hx([]byte("$p")) + "=D+:250:-2", "V" + hx([]byte("$p")) + "=D+:1:3", "V" + hx([]byte("$p")) + "=D+:1000:0", "V" + hx([]byte("k")) + "=D+:250:-2",
+			"V" + hx([]byte("k")) + "=D+:25:-1", "V" + hx([]byte("$p")) + "=Ii:1000", "V" + hx([]byte("$p")) + "=G" + hx([]byte("2.5")), "V" + hx([]byte("$p")) + "=" + ws("2.5"), "T1", "T3"}
+		var alpha []string
+		for _, f := range nf {
+			alpha = append(alpha, "R"+hx([]byte(f)), "Q"+hx([]byte(f)))
+		}
+		alpha = append(alpha, sets...)
+		enumSeq(len(alpha), 3, func(idx []int) {
+			if len(idx) < 2 {
+				return
+			}
+			var ops []string
+			for _, i := range idx {
+				ops = append(ops, alpha[i])
+			}
+			emit(append(ops, "R"+hx([]byte(obsf[(idx[0]+2*idx[1]+len(idx))%len(obsf)])), "G"+hx([]byte("$p"))))
+		})
+		o.Stat("same value written again in another notation")
+	}
 	// wide numbers (20 to 34 digits, fractions) stored as locals and caller values, passed to builtins and operators,
 	// returned through the public entry point, and read again later: a stored number may never change
 	wide := []string{"D+:1234567890123456789012345678901234:-14", "D+:1234567890123456789015:-1", "D-:66666666666666666666666666666667:-31", "D+:99999999999999999999:0", "D+:25:-1"}
@@ -380,6 +404,61 @@ func suiteStrFun(o *Out, thorough bool, seed int64) {
 				o.Fail(line(t), "regexp disagrees with RE2 matching")
 			}
 		}
+	}
+	// generated patterns: literal words (with and without flags) over letters whose case folding is not lower-casing
+	// (long s, Kelvin sign, micro sign / mu, the three sigmas, dotted and dotless i, sharp s, the dz digraphs, the
+	// combining iota), a small grammar of operators around them, and subjects derived from each pattern - its own
+	// words in other letter case, with members of the same folding orbit substituted, embedded in other text
+	{
+		orbit := [][]string{{"s", "S", "\u017f"}, {"k", "K", "\u212a"}, {"\u00b5", "\u03bc", "\u039c"}, {"\u03c3", "\u03c2", "\u03a3"}, {"i", "I", "\u0130", "\u0131"}, {"\u00df", "\u1e9e", "ss"},
+			{"\u01c4", "\u01c5", "\u01c6"}, {"\u0345", "\u03b9", "\u0399", "\u1fbe"}, {"\u00e5", "\u00c5", "\u212b"}, {"\u03b8", "\u03d1", "\u03f4", "\u0398"}, {"e", "E", "\u00e9", "\u00c9"}, {"a", "A"}, {"\u0434", "\u0414", "\u1c81"}}
+		words := []string{"message", "kelvin", "\u03bcm", "\u03b3\u03bf\u03c3", "istanbul", "stra\u00dfe", "\u01c6ez", "\u1fb3", "\u00e5ngstr\u00f6m", "\u03b8eta", "a", "ss", "Is", "mass", "\u0434a"}
+		flags := []string{"", "(?i)", "(?i)^", "(?s)", "(?im)", "(?U)", "(?i:", "(?-i)"}
+		wrap := []string{"%s", "^%s$", "%s+", "(%s|zz)", "[%s]", "[^%s]x", "%s?x", "\\b%s\\b", "(?i:%s)x", "%s{2}", ".%s.", "\\Q%s\\E"}
+		variants := func(w string) []string {
+			out := []string{w, strings.ToUpper(w), strings.ToLower(w), strings.Title(w), "x" + w + "y", w + w, ""}
+			for _, ob := range orbit {
+				for _, a := range ob {
+					if strings.Contains(w, a) {
+						for _, b := range ob {
+							if a != b {
+								out = append(out, strings.Replace(w, a, b, 1), strings.ToUpper(strings.Replace(w, a, b, -1)), "pre "+strings.Replace(w, a, b, -1)+" post")
+							}
+						}
+					}
+				}
+			}
+			return out
+		}
+		count := 0
+		for wi, w := range words {
+			for fi, f := range flags {
+				for ki, wr := range wrap {
+					if !thorough && (wi+fi+ki)%3 != 0 && !(ki == 0 && fi <= 1) {
+						continue
+					}
+					pat := f + fmt.Sprintf(wr, w)
+					if f == "(?i:" {
+						pat += ")"
+					}
+					re, err := regexp.Compile(pat)
+					for _, sub := range variants(w) {
+						data := wmap("s", ws(sub), "p", ws(pat))
+						got := resultOf(emitEval(o, "regexp(s, p)", 0, "-", data, true))
+						count++
+						ln := fmt.Sprintf("EV\t%s\t0\t-\t%s", hx([]byte("regexp(s, p)")), data)
+						if err != nil {
+							if got != "E" && got != "P" {
+								o.Fail(ln, fmt.Sprintf("the invalid regular expression %q is not reported as an error: %s", pat, got))
+							}
+						} else if (got == "V T") != re.MatchString(sub) {
+							o.Fail(ln, fmt.Sprintf("regexp(%q, %q) is %s; RE2 matching says %v", sub, pat, got, re.MatchString(sub)))
+						}
+					}
+				}
+			}
+		}
+		o.Stat(fmt.Sprintf("generated regular expressions: %d pattern/subject pairs", count))
 	}
 	// sizes: the laws at lengths far from the small cases above (thresholds of buffers, caches, clamps); oracle
 	// only, the results are too long to ship to the model
@@ -1501,10 +1580,20 @@ func suiteRace(o *Out, thorough bool, seed int64) {
 	}
 	var trees []*formula.SourceCode
 	var texts []string
-	for _, t := range purityPool {
+	racePool := append([]string{}, purityPool...)
+	// deep trees whose evaluation fails: the error (text included) is part of the result
+	racePool = append(racePool, strings.Repeat("(", 600)+"nosuchname"+strings.Repeat(")", 600)+"!.b", strings.Repeat("(", 300)+"nosuchname"+strings.Repeat(")", 300)+"!.b.c",
+		"nofn("+strings.Repeat("[", 200)+"1"+strings.Repeat("]", 200)+")", "1"+strings.Repeat(" + 1", 400)+" + nosuchname!.k", "left('abc', -1) + "+strings.Repeat("-", 300)+"1")
+	for _, t := range racePool {
 		if s, err := formula.ParseSourceCode([]byte(t)); err == nil {
 			trees = append(trees, s)
 			texts = append(texts, t)
+		}
+	}
+	parseRef := map[string]string{}
+	for _, t := range purityPool {
+		if _, err := formula.ParseSourceCode([]byte(t + " )")); err != nil {
+			parseRef[t] = err.Error()
 		}
 	}
 	// sequential reference results
@@ -1518,7 +1607,7 @@ func suiteRace(o *Out, thorough bool, seed int64) {
 			protect(func() { v, e = r1.Resolve(context.Background(), s.Expression) })
 			res := "V:" + enc(v)
 			if e != nil {
-				res = "E"
+				res = "E:" + addrRe.ReplaceAllString(e.Error(), "0x")
 			}
 			ref[fmt.Sprintf("%d/%d", i, di)] = res
 		}
@@ -1546,18 +1635,27 @@ func suiteRace(o *Out, thorough bool, seed int64) {
 						protect(func() { v, e = r1.Resolve(context.Background(), trees[i].Expression) })
 						res := "V:" + enc2(v)
 						if e != nil {
-							res = "E"
+							res = "E:" + addrRe.ReplaceAllString(e.Error(), "0x")
 						}
-						if res != ref[fmt.Sprintf("%d/%d", i, di)] {
+						if want := ref[fmt.Sprintf("%d/%d", i, di)]; res != want {
+							tx := texts[i]
+							if len(tx) > 80 {
+								tx = tx[:80] + "..."
+							}
 							mu.Lock()
-							bad = append(bad, fmt.Sprintf("goroutine result differs from the sequential one for %q", texts[i]))
+							bad = append(bad, fmt.Sprintf("goroutine result differs from the sequential one for %q: %.200s, sequentially %.200s", tx, res, want))
 							mu.Unlock()
 						}
 					case 2:
 						protect(func() { formula.ResolveReferenceFields(trees[i]) })
 					default:
-						_, err := formula.ParseSourceCode([]byte(purityPool[rr.Intn(len(purityPool))] + " )"))
-						_ = err
+						pt := purityPool[rr.Intn(len(purityPool))]
+						_, err := formula.ParseSourceCode([]byte(pt + " )"))
+						if want, ok := parseRef[pt]; ok && (err == nil || err.Error() != want) {
+							mu.Lock()
+							bad = append(bad, fmt.Sprintf("the syntax error of %q differs from the sequential one: %v, sequentially %s", pt+" )", err, want))
+							mu.Unlock()
+						}
 					}
 				}
 			}(g)
